@@ -55,7 +55,11 @@ fn placements(units: &[U]) -> Vec<&'static str> {
 
 pub fn run_case(case: &mut Case) {
     let mut rng = case.rng(0);
-    let spec = gen_options(&mut rng, opts());
+    let mut spec = gen_options(&mut rng, opts());
+    if rng.chance(1, 4) && super::c02::share_a_letter_between_commands(&mut spec, &mut rng) {
+        // sibling commands reuse a letter, as a switch in one and as an argument in the other
+        case.rep.count("definitions-with-a-letter-shared-between-commands");
+    }
     let b = Bench::new(case, spec);
     let n_der = if case.thorough { 24 } else { 10 };
     let n_perm = if case.thorough { 6 } else { 3 };
@@ -120,6 +124,82 @@ pub fn run_case(case: &mut Case) {
                     .set("class", "canonical order")
                     .set("observed", o_base.show()),
             );
+        }
+        // two neighbouring flags written as one cluster: `-ab` and `-ba` are the same two
+        // occurrences in two orders
+        {
+            // (letters of hidden items are unknown to the tokenizer: F03, C02's business)
+            let hidden = super::c02::hidden_items(&b.spec);
+            let short_of = |ix: usize| -> Option<char> {
+                let o = bline.origin.get(ix)?;
+                if o.role != Role::Flag || o.after_dd || o.block.is_some() {
+                    return None;
+                }
+                match &base[o.unit].kind {
+                    UKind::Flag { item, .. } if hidden.contains(item) => None,
+                    UKind::Flag { names, .. } => {
+                        names.shorts.iter().copied().find(|c| c.is_ascii_alphanumeric())
+                    }
+                    _ => None,
+                }
+            };
+            // occurrences that feed the same field keep their relative order
+            fn groups(atoms: &[Atom], out: &mut Vec<(Id, u32)>) {
+                for a in atoms {
+                    match a {
+                        Atom::Flag { item, group, .. } => out.push((*item, *group)),
+                        Atom::Cmd { inner, .. } => groups(inner, out),
+                        _ => {}
+                    }
+                }
+            }
+            let mut gs = Vec::new();
+            groups(&atoms, &mut gs);
+            let group_of = |ix: usize| -> Option<u32> {
+                match &base[bline.origin[ix].unit].kind {
+                    UKind::Flag { item, .. } => {
+                        gs.iter().find(|(i, _)| i == item).map(|(_, g)| *g)
+                    }
+                    _ => None,
+                }
+            };
+            for ix in 0..bline.argv.len().saturating_sub(1) {
+                if short_of(ix).is_some()
+                    && short_of(ix + 1).is_some()
+                    && group_of(ix) == group_of(ix + 1)
+                {
+                    continue;
+                }
+                let (x, y) = match (short_of(ix), short_of(ix + 1)) {
+                    (Some(x), Some(y)) if bline.origin[ix].depth == bline.origin[ix + 1].depth => {
+                        (x, y)
+                    }
+                    _ => continue,
+                };
+                let mut xy = bline.argv.clone();
+                xy[ix] = format!("-{}{}", x, y).into_bytes();
+                xy.remove(ix + 1);
+                let mut yx = xy.clone();
+                yx[ix] = format!("-{}{}", y, x).into_bytes();
+                let (o_xy, _) = b.run(case, &xy, "cluster-order");
+                let (o_yx, _) = b.run(case, &yx, "cluster-order");
+                case.rep.count("cluster-pairs");
+                let abnormal = |o: &Outcome| matches!(o, Outcome::Panic(_) | Outcome::FuelExhausted);
+                if !same(&o_xy, &o_yx) && !abnormal(&o_xy) && !abnormal(&o_yx) {
+                    case.rep.violation(
+                        "order-matters:inside-a-cluster",
+                        "permutation",
+                        case.index,
+                        b.detail(
+                            &yx,
+                            "cluster-order",
+                            &format!("the outcome of {}: {}", show_argv(&xy).render(), o_xy.show()),
+                            &o_yx,
+                        ),
+                    );
+                }
+                break;
+            }
         }
         // the help and the version flag are named flags of the level as well: which of the two
         // is written first does not matter
